@@ -16,6 +16,7 @@ CLAIMED = {
             "map's keys in map order) in engine/inspection/migration code is order-insensitive by construction or "
             "listed with a confirmed reason; the named sorted renderers sort what they collect. Round 3: a listed comparator compares each listed field between the two elements. "
             "Round 4: Clone does not write into the mapping it is handed (aliases, closure cells and callees followed). "
+            "Round 5: the shared-write audit of C09 R1 is imported (output must not depend on what other sessions wrote). "
             "Does not decide "
             "byte-identical output as an observed fact nor determinism of dependencies.",
             "custom AST+types map-iteration order classifier, who-may-call over SSA call sites",
@@ -40,6 +41,7 @@ CLAIMED = {
             "evaluated or can hold dependencies is passed on by its enumerators. Also: the extraction chain from tagged fields to recorded references hands over under loop bounds, type arms, nil tests, EngineField flags and Reference.Variable() only, without leaving a loop early. "
             "Round 3: a category's exit is validated against the node's exits (imported from C01 R10); SwitchRouter.Validate does not accept a laxer spelling of Case.Type than its consumers compare. "
             "Round 4: a session is only resumed at a node that waits (imported from C10 R3). "
+            "Round 5: every path through the run context that ends at the contact's fields, computed from the Context map literals, is a row of inspect.fieldRefPaths (found and fixed F31). "
             "Does not relate inspection to actual executions.",
             "table agreement between sibling implementations (saves vs declares) via SSA provenance, struct-tag audit, control-dependence check",
             "DESIGN.md §4 C20"),
@@ -56,6 +58,7 @@ CLAIMED = {
             "15 listed sites with its reason. Also: every method invoked on an interface value of type XValue (null is a nil XValue) is on a value produced non-nil or under a nil/IsNil guard (also through parameters of unexported helpers). "
             "Round 3: every XObject.Default() call is under hasDefault() of the same object (the object is its own no-default sentinel). "
             "Round 4: no pointer that may be nil is converted to an interface (module-wide, reflection-tested consumers excepted). "
+            "Round 5: the two scanner functions that decide what follows an @ use the same tests (no hand-back loop). "
             "Does not decide termination inside libraries for guarded operands, numeric results, "
             "or the listed sites beyond the stated argument.",
             "guard-dominance (control-dependence) check on partial-call operands, arity-table vs index agreement, path typestate on the arity wrapper",
@@ -81,6 +84,7 @@ CLAIMED = {
             "flow-sensitive (run,step) pairing for every LogEvent/failRun site; event double-entry; path/exit ownership and exit "
             "provenance; terminal push, failure bubbling and failed-action-stops-node. Also: the terminal session status is stored only with no active parent left or after all runs were exited; the owners of session.status include unexported helpers only they call. "
             "Round 3: Session.PushFlow is the point of no return (no Run.Exit reachable after it in its two callers); baseRouter.validate compares a category's exit with the node's exits and, evaluated for a set exit that is not among them, returns an error. "
+            "Round 5: after failRun(r) the main loop goes on from r on every path back to its header (failure bubbles from the run that was failed). "
             "Does not perform the induction over "
             "histories (waiting <=> exactly one waiting run, ancestors active, path is a walk for every graph).",
             "who-may-write + forward must-dataflow over go/ssa, variable-pair typestate over go/cfg, path-sensitive typestate",
@@ -92,6 +96,7 @@ CLAIMED = {
             "countWaits' predicate accepts every wait event type; the size choke points (results, names, fields, template text on "
             "every returning path, quick replies, attachments). Also: the truncation of a field value's text depends only on the value being non-nil; constant and computed indexes in flows/engine and flows/runs are within range on every path (45 sites, 1 listed with a companion obligation on who writes run.path). "
             "Round 4: wherever message content is put together, what is appended to MsgContent.QuickReplies is truncated to MaxQuickReplyLength. "
+            "Round 5: the index analysis covers everything an engine call executes (flows, actions, routers, modifiers, inputs, triggers, resumes, events), with length facts through interface methods and function-literal call sites. "
             "Does not decide termination inside actions' services or the "
             "library truncation functions.",
             "dominance/guard checks and counter-monotonicity on go/ssa, exhaustive path enumeration of one loop iteration, predicate-vs-table agreement, value provenance to truncation calls",
@@ -120,6 +125,7 @@ CLAIMED = {
             "are empty. Also: the evaluator's tables the group queries run through are obligations here too (imported from C15 R1 R2). "
             "Does "
             "Round 4: the values of the contact handed to the evaluator (C15 R3: presence guards, fields only for field properties) are imported too. "
+            "Round 5: both operands of a text comparison are normalised by the same calls (imported with C15 R1). "
             "not decide that the evaluator's answer is right (C15) nor asset loading.",
             "interprocedural dirty/clean dataflow over go/ssa with CHA dispatch and object-root sensitivity, guard dominance",
             "DESIGN.md §4 C06"),
@@ -133,6 +139,7 @@ CLAIMED = {
             "len(categories); Results.Save always stores. Also: the engine's choice of RouteTimeout traces through parameters and every call site only to a type test of the resume parameter or the constant false, never to session state; case arguments and category names use the documented language fallback (imported from C18 R1 R2). "
             "Round 3: the two calendar days a date test compares are taken in the same timezone; translated case arguments are used only when they are as many as the base arguments. "
             "Round 4: a candidate that fails the comparison does not end the search loop; a parentless location lookup is decided by the emptiness of the text naming the level above. "
+            "Round 5: no slice or map is built and never read in the router packages (lint). "
             "Does not decide what each test function matches.",
             "SSA value-provenance and guard-dominance checks on the router functions",
             "DESIGN.md §4 C07"),
@@ -145,6 +152,7 @@ CLAIMED = {
             "localizable-text writers run only on a copy(). Also: an append to an uncopied slice of a shared object counts as a shared write; no pointer member of a JSON decode target aliases a package-level variable. "
             "Round 3: members of shared objects that can hold X values are assigned eagerly built values only; SetDeprecated is never applied to a value that may be a package-level variable (followed through callee returns). "
             "Round 4: no package-level variable has a library type documented as unsafe for concurrent use. "
+            "Round 5: methods of the lazily initialised X types write only the known lazy fields of their receiver. "
             "Does not observe races, and does not cover third-party packages or "
             "the host's asset source.",
             "type-closure of shared state + interprocedural root-sensitive write-effect summaries (go/ssa + CHA), lock-region dominance",
@@ -197,6 +205,7 @@ CLAIMED = {
             "the dispatched comparison function handles without panicking; node switches are exhaustive; Simplify compares operators. "
             "Round 3: the Go types QueryValue can return are collected per field type by path enumeration (fall-through returns included); presence guards in QueryProperty test the field the value comes from. "
             "Round 4: presence guards also in FieldValue.QueryValue; the contact's fields are consulted only for properties that are neither attributes nor URN schemes. "
+            "Round 5: both operands of textComparison pass the same normalising calls. "
             "Does not decide date parsing of query values, tokenisation, or the comparison primitives themselves.",
             "finite-domain abstract interpretation (path typestate engine with abstract transfer tables), sibling-table agreement",
             "DESIGN.md §4 C15"),
@@ -210,6 +219,7 @@ CLAIMED = {
             "types and Simplify keeps every child, flattening only same-operator children. Also: the text ParseQuery hands to the lexer derives from its parameter through listed calls only (TrimSpace, the whole-text phone number rewrite). "
             "Round 3: every return of ContactQueryEscaping is strconv.Quote of its argument, and inside Evaluator.Template the escaping call depends only on escaping != nil, the token type and the error test. "
             "Round 4: the string evaluator under R3 was made sound for unknown strings and joins of mixed element forms. "
+            "Round 5: the arms that reject URN conditions under redaction exempt the same conditions (sibling agreement). "
             "Does not decide structural identity of re-parsed "
             "queries for all inputs.",
             "value provenance over go/ssa, regular-language (NFA->DFA) reasoning on the grammar's lexer rule, constant-pattern analysis, table agreement",
@@ -251,6 +261,7 @@ CLAIMED = {
             "hand-built text literals escape quote and backslash; body text is copied. Also: a migrated child expression is substituted whole, never sliced or textually edited. "
             "Round 3: outside init no function of the expressions package writes a package-level variable (stores, map updates, mutating sync methods). "
             "Round 4: every functionReturnTypes entry agrees with the X type its excellent function returns (or names no function, or is listed). "
+            "Round 5: Sprintf of a non-constant template with the call's parameters is reached only when len(params) equals the count taken from the template (found and fixed F30). "
             "Does not decide that renamed functions compute "
             "the same values, nor argument order inside explicit-index templates.",
             "abstract interpretation of string-building code (templates with holes and path guards) + grammar/table agreement + guard evidence on dominating branches",
@@ -265,6 +276,7 @@ CLAIMED = {
             "XValue has MarshalJSON; = and != are ToXText + string (in)equality. Also: any arithmetic on a parsed year is controlled by the length of the year text (true for 2 characters, false for 4). "
             "Round 3: an XDateTime method that converts its receiver with In() prints no component of the unconverted receiver; XText marshals through the JSON encoder. "
             "Round 4: the day/month/year validity check in envs uses the year the date is built from. "
+            "Round 5: the upper-bound tests in front of NewTimeOfDay let 59 through for minutes and seconds. "
             "Does not decide the library arithmetic, DST folds, "
             "second-granular UTC offsets or non-am/pm locales.",
             "writer/reader table agreement by constant evaluation of the source's own patterns and layouts; regular-language inclusion; finite-domain evaluation of an SSA fragment; go/ssa provenance",
